@@ -9,6 +9,7 @@ and whose grid is built from a configuration with non-zero chunk sizes and is co
 (C10).  The abstract array `AArr` assigns one element to every index; `absRun ops` is the obvious effect of a
 history on it (later writes override earlier ones, erased chunks revert to fill, everything else is fill).
 -/
+set_option linter.unusedSectionVars false
 namespace Zarrs.C01
 open Zarrs
 
@@ -34,6 +35,83 @@ def opInBounds (cfg : ArrCfg α) (G : Shape) : WriteOp α → Prop
   | .eraseChunk c => inB c G = true
   | .eraseChunks b => b.wf = true ∧ b.inboundsShape G = true
 
+/-! ### the example configuration used by the non-vacuity `example`s -/
+
+/-- unary chunk keys: `[2, 1] ↦ "aa/a/"` (injective on all index lists) -/
+def exKey (c : Idx) : Key := c.flatMap (fun n => List.replicate n 'a' ++ ['/'])
+
+theorem exKey_inj : ∀ a b : Idx, exKey a = exKey b → a = b := by
+  have hrep : ∀ (n m : Nat) (r r' : Key),
+      List.replicate n 'a' ++ '/' :: r = List.replicate m 'a' ++ '/' :: r' → n = m ∧ r = r' := by
+    intro n
+    induction n with
+    | zero =>
+      intro m r r' h
+      cases m with
+      | zero => simpa using h
+      | succ m => simp [List.replicate_succ] at h
+    | succ n ih =>
+      intro m r r' h
+      cases m with
+      | zero => simp [List.replicate_succ] at h
+      | succ m =>
+        simp only [List.replicate_succ, List.cons_append, List.cons.injEq, true_and] at h
+        obtain ⟨h1, h2⟩ := ih m r r' h
+        exact ⟨by omega, h2⟩
+  intro a
+  induction a with
+  | nil =>
+    intro b h
+    cases b with
+    | nil => rfl
+    | cons y ys =>
+      have := congrArg List.length h
+      simp [exKey] at this
+  | cons x xs ih =>
+    intro b h
+    cases b with
+    | nil =>
+      have := congrArg List.length h
+      simp [exKey] at this
+    | cons y ys =>
+      simp only [exKey, List.flatMap_cons, List.append_assoc, List.singleton_append] at h
+      obtain ⟨h1, h2⟩ := hrep x y _ _ h
+      rw [h1, ih ys h2]
+
+/-- a 5×7 array of `Nat`, regular 2×3 chunks (grid shape 3×3, the last row and column of chunks overhang),
+fill 0, identity codec, elision of all-fill chunks on -/
+def exCfg : ArrCfg Nat :=
+  { shape := [5, 7], grid := Grid.new [.fixed 2, .fixed 3], fill := 0, keyOf := exKey,
+    enc := id, dec := some, storeEmpty := false }
+
+theorem exOk : Ok exCfg [3, 3] where
+  lossless := fun _ => rfl
+  keysInj := exKey_inj
+  gridNew := ⟨_, rfl⟩
+  gridWf := by decide
+  gridShape := by decide
+  rank := rfl
+
+/-- a history exercising every operation; the first write straddles chunks (0,0), (0,1), (1,0), (1,1) -/
+def exOps : List (WriteOp Nat) :=
+  [ .storeArraySubset ⟨[1, 2], [3, 4]⟩ [0, 1, 2, 3, 4, 5, 6, 7, 8, 9, 10, 11],
+    .storeChunk [0, 0] [7, 7, 7, 7, 7, 7],
+    .eraseChunk [1, 1],
+    .storeChunks ⟨[0, 1], [2, 2]⟩ (List.replicate 24 9),
+    .storeChunkSubset [2, 2] ⟨[0, 1], [1, 2]⟩ [5, 6],
+    .eraseChunks ⟨[2, 0], [1, 2]⟩ ]
+
+theorem exOps_inBounds : ∀ op ∈ exOps, opInBounds exCfg [3, 3] op := by
+  intro op hop
+  simp only [exOps, List.mem_cons, List.not_mem_nil, or_false] at hop
+  rcases hop with rfl | rfl | rfl | rfl | rfl | rfl
+  · exact ⟨by decide, by decide, by decide⟩
+  · exact ⟨by decide, [2, 3], by decide, by decide⟩
+  · exact (by decide : inB [1, 1] [3, 3] = true)
+  · exact ⟨by decide, by decide, ⟨[0, 3], [4, 6]⟩, by decide, by decide⟩
+  · exact ⟨by decide, by decide, ⟨[2, 3], by decide, by decide⟩, by decide⟩
+  · exact ⟨by decide, by decide⟩
+
 /-- **C01.** After any in-bounds history starting from the empty store, every read route returns, element for
 element, the abstract array: the most recently written value, fill where nothing was written or the last write
 was erased. -/
@@ -51,12 +129,42 @@ theorem read_after_history (cfg : ArrCfg α) (G : Shape) (hok : Ok cfg G)
       (∀ b : Subset, b.wf = true → b.inboundsShape G = true →
         ∃ region, cfg.grid.chunksSubset b = some region ∧
           cfg.retrieveChunks st b = some (AArr.read (cfg.absRun ops) region)) := by
-  sorry
+  have hok' : cfg.COk G := ⟨hok.lossless, hok.keysInj, hok.gridNew, hok.gridWf, hok.gridShape, hok.rank⟩
+  have hops' : ∀ op ∈ ops, cfg.opInB G op := fun op hop => by
+    have := hops op hop; cases op <;> exact this
+  obtain ⟨st, hrun, hinv⟩ := ArrCfg.run_empty_inv hok' ops hops'
+  refine ⟨st, hrun, ?_, ?_, ?_, ?_⟩
+  · intro r hr hb
+    exact ArrCfg.retrieveArraySubset_read hok' hinv r hr hb
+  · intro c hc
+    obtain ⟨cs, hcs, _⟩ := hok'.chunk_def c hc
+    exact ⟨cs, hcs, hinv.chunks c hc cs hcs⟩
+  · rintro c r hc hr ⟨s, hs, hrb⟩
+    obtain ⟨cs, hcs, hsh, _⟩ := hok'.chunk_def c hc
+    rw [hs] at hsh; cases hsh
+    exact ⟨cs, hcs, ArrCfg.retrieveChunkSubset_read hok' hinv hc hcs r hr hrb⟩
+  · intro b hb hbi
+    exact ArrCfg.retrieveChunks_read hok' hinv b hb hbi
+
+/-- non-vacuity: a 5×7 array of `Nat` over a regular 2×3 grid (edge chunks overhang the array), unary-coded
+chunk keys, identity codec, elision on; the history has a write straddling four chunks, whole-chunk and
+partial-chunk writes, a multi-chunk write and both kinds of erase -/
+example : ∃ (cfg : ArrCfg Nat) (G : Shape) (ops : List (WriteOp Nat)),
+    Ok cfg G ∧ (∀ op ∈ ops, opInBounds cfg G op) ∧ ops.length = 6 :=
+  ⟨exCfg, [3, 3], exOps, exOk, exOps_inBounds, rfl⟩
+
+/-- the conclusion on the example, checked by evaluation: reading the whole array back after the history -/
+example : (exCfg.run [] exOps).bind (fun st => exCfg.retrieveArraySubset st ⟨[0, 0], [5, 7]⟩) =
+    some (AArr.read (exCfg.absRun exOps) ⟨[0, 0], [5, 7]⟩) := by decide
 
 /-- the abstract array really is "last write wins, else fill": reading one index -/
 theorem abs_last_write (cfg : ArrCfg α) (ops : List (WriteOp α)) (op : WriteOp α) (i : Idx) :
     cfg.absRun (ops ++ [op]) i = cfg.absOp (cfg.absRun ops) op i ∧ cfg.absRun [] i = cfg.fill := by
-  sorry
+  simp [ArrCfg.absRun, List.foldl_append]
+
+/-- `abs_last_write` has no hypotheses; on the example: the last write wins at `[1, 3]`, which an earlier
+write had set to `1` -/
+example : exCfg.absRun exOps [1, 3] = 9 ∧ exCfg.absRun (exOps.take 1) [1, 3] = 1 := by decide
 
 /-- **C04 (elision on).** With `store_empty_chunks` off, after any history a chunk key is present exactly when
 the chunk holds at least one non-fill element -/
@@ -65,35 +173,98 @@ theorem key_present_iff (cfg : ArrCfg α) (G : Shape) (hok : Ok cfg G) (helide :
     ∃ st, cfg.run [] ops = some st ∧
       ∀ c, inB c G = true → ∃ cs, cfg.chunkSubset c = some cs ∧
         (cfg.keyOf c ∈ st.keys ↔ ∃ i, cs.contains i = true ∧ cfg.absRun ops i ≠ cfg.fill) := by
-  sorry
+  have hok' : cfg.COk G := ⟨hok.lossless, hok.keysInj, hok.gridNew, hok.gridWf, hok.gridShape, hok.rank⟩
+  have hops' : ∀ op ∈ ops, cfg.opInB G op := fun op hop => by
+    have := hops op hop; cases op <;> exact this
+  obtain ⟨st, hrun, hinv⟩ := ArrCfg.run_empty_inv hok' ops hops'
+  refine ⟨st, hrun, ?_⟩
+  intro c hc
+  obtain ⟨cs, hcs, _⟩ := hok'.chunk_def c hc
+  exact ⟨cs, hcs, hinv.elide helide c hc cs hcs⟩
+
+example : ∃ (cfg : ArrCfg Nat) (G : Shape) (ops : List (WriteOp Nat)),
+    Ok cfg G ∧ cfg.storeEmpty = false ∧ (∀ op ∈ ops, opInBounds cfg G op) ∧ ops.length = 6 :=
+  ⟨exCfg, [3, 3], exOps, exOk, rfl, exOps_inBounds, rfl⟩
 
 /-- **C04.** no other keys are ever written -/
 theorem keys_are_chunk_keys (cfg : ArrCfg α) (G : Shape) (hok : Ok cfg G)
     (ops : List (WriteOp α)) (hops : ∀ op ∈ ops, opInBounds cfg G op) :
     ∃ st, cfg.run [] ops = some st ∧ ∀ k ∈ st.keys, ∃ c, inB c G = true ∧ k = cfg.keyOf c := by
-  sorry
+  have hok' : cfg.COk G := ⟨hok.lossless, hok.keysInj, hok.gridNew, hok.gridWf, hok.gridShape, hok.rank⟩
+  have hops' : ∀ op ∈ ops, cfg.opInB G op := fun op hop => by
+    have := hops op hop; cases op <;> exact this
+  obtain ⟨st, hrun, hinv⟩ := ArrCfg.run_empty_inv hok' ops hops'
+  exact ⟨st, hrun, hinv.keys⟩
+
+example : ∃ (cfg : ArrCfg Nat) (G : Shape) (ops : List (WriteOp Nat)),
+    Ok cfg G ∧ (∀ op ∈ ops, opInBounds cfg G op) ∧ ops.length = 6 :=
+  ⟨exCfg, [3, 3], exOps, exOk, exOps_inBounds, rfl⟩
 
 /-- **C04 (elision off).** every chunk written through the whole-chunk write path is physically stored -/
 theorem store_empty_stores (cfg : ArrCfg α) (hempty : cfg.storeEmpty = true) (st st' : KV) (c : Idx) (d : List α)
     (h : cfg.storeChunk st c d = some st') : cfg.keyOf c ∈ st'.keys := by
-  sorry
+  simp only [ArrCfg.storeChunk, hempty, Bool.not_true, Bool.false_and, Bool.false_eq_true, if_false] at h
+  split at h
+  · cases h
+  · split at h
+    · cases h
+    · cases h
+      rw [KV.mem_keys_iff_get, KV.get_put_same]
+      simp
+
+/-- an all-fill chunk written with `store_empty_chunks` on -/
+example : ∃ (cfg : ArrCfg Nat) (st st' : KV) (c : Idx) (d : List Nat),
+    cfg.storeEmpty = true ∧ cfg.storeChunk st c d = some st' ∧ cfg.isFill d = true :=
+  ⟨{ exCfg with storeEmpty := true }, [], _, [1, 2], List.replicate 6 0, rfl, rfl, by decide⟩
 
 /-- **C04.** a chunk is left out only if all its elements equal the fill value -/
 theorem elided_only_if_fill (cfg : ArrCfg α) (st st' : KV) (c : Idx) (d : List α)
     (h : cfg.storeChunk st c d = some st') (hk : cfg.keyOf c ∉ st'.keys) : ∀ x ∈ d, x = cfg.fill := by
-  sorry
+  simp only [ArrCfg.storeChunk] at h
+  split at h
+  · cases h
+  · split at h
+    · cases h
+    · split at h
+      · rename_i hcond
+        simp only [Bool.and_eq_true] at hcond
+        exact (ArrCfg.isFill_iff d).mp hcond.2
+      · cases h
+        exfalso
+        apply hk
+        rw [KV.mem_keys_iff_get, KV.get_put_same]
+        simp
+
+/-- an all-fill chunk overwriting a stored one: the key disappears -/
+example : ∃ (cfg : ArrCfg Nat) (st st' : KV) (c : Idx) (d : List Nat),
+    cfg.storeChunk st c d = some st' ∧ cfg.keyOf c ∉ st'.keys ∧ cfg.keyOf c ∈ st.keys :=
+  ⟨exCfg, [(exKey [1, 2], [1, 2, 3, 4, 5, 6])], [], [1, 2], List.replicate 6 0, by decide, by decide, by decide⟩
 
 /-- **C04.** whatever is left out reads back as fill -/
 theorem absent_reads_fill (cfg : ArrCfg α) (st : KV) (c : Idx) (s : Shape)
     (hs : cfg.chunkShape c = some s) (hk : cfg.keyOf c ∉ st.keys) :
     cfg.retrieveChunk st c = some (List.replicate (prod s) cfg.fill) ∧
     cfg.retrieveChunkIfExists st c = some none := by
-  sorry
+  have hget : st.get (cfg.keyOf c) = none := by
+    cases hg : st.get (cfg.keyOf c) with
+    | none => rfl
+    | some b => exact absurd ((KV.mem_keys_iff_get st _).mpr (by rw [hg]; simp)) hk
+  simp [ArrCfg.retrieveChunk, ArrCfg.retrieveChunkIfExists, hs, hget]
+
+example : ∃ (cfg : ArrCfg Nat) (st : KV) (c : Idx) (s : Shape),
+    cfg.chunkShape c = some s ∧ cfg.keyOf c ∉ st.keys ∧ st ≠ [] :=
+  ⟨exCfg, [(exKey [1, 2], [1, 2, 3, 4, 5, 6])], [0, 1], [2, 3], by decide, by decide, by decide⟩
 
 /-- the run-based update of the code equals the element-wise scatter specification -/
 theorem updateRuns_eq_scatter (sh : Shape) (r : Subset) (xs ys : List α) (hr : r.wf = true)
     (hb : r.inboundsShape sh = true) (hx : xs.length = prod sh) (hy : ys.length = r.numElements) :
-    (updateRuns sh r xs ys).map some = scatter sh r xs ys := by
-  sorry
+    (updateRuns sh r xs ys).map some = scatter sh r xs ys :=
+  updateRuns_scatter sh r xs ys hr hb hx hy
+
+/-- a 2×2 region in the interior of a 3×4 array: two runs of two elements -/
+example : ∃ (sh : Shape) (r : Subset) (xs ys : List Nat), r.wf = true ∧ r.inboundsShape sh = true ∧
+    xs.length = prod sh ∧ ys.length = r.numElements ∧
+    updateRuns sh r xs ys = [0, 0, 0, 0, 0, 1, 2, 0, 0, 3, 4, 0] :=
+  ⟨[3, 4], ⟨[1, 1], [2, 2]⟩, List.replicate 12 0, [1, 2, 3, 4], by decide⟩
 
 end Zarrs.C01
